@@ -481,7 +481,7 @@ MIXED = {
                             weights=dict(subscribe=5, unsubscribe=2, publish=9, disconnect=2, connect=4, tick=1, size_sweep=0.4, version_switch=1)), dict(obscure=[False, True])),
     "C24": ("routing", dict(versions=[5, 5, 4], tam=[0, 1, 2, 2], rm=[0, 0, 1], mps=[0, 0, 0, 50], pad=0.2, pads=[60], qos=[0, 1, 1], in_alias=0.5, alias_max=2,
                             filters=[["a"], ["b"], ["a", "b"], ["#"], ["+"]], topics=[["a"], ["b"], ["a", "b"]], p_clean=0.3, sei=[300],
-                            weights=dict(subscribe=5, unsubscribe=1, publish=12, disconnect=1, connect=3, alias_rebind=1.5)), dict(topic_alias_max=[2, 2, 0], max_pending=[8192, 8192, 1])),
+                            weights=dict(subscribe=5, unsubscribe=1, publish=12, disconnect=1, connect=3, alias_rebind=1.5, alias_resume=1)), dict(topic_alias_max=[2, 2, 0], max_pending=[8192, 8192, 1])),
     "C25": ("routing", dict(versions=[5, 5, 4], qos=[0, 1, 1], retain=0.5, mei=[0, 0, 20, 50, 200], rm=[0, 0, 1], sei=[300], p_clean=0.2, ack=False,
                             ticks=["retained", "inflight", "retained", "inflight", "clients"], dts=[0, 30, 70, 150, 400],
                             filters=[["a"], ["b"], ["#"], ["a", "#"]], topics=[["a"], ["b"], ["a", "b"]],
